@@ -692,7 +692,70 @@ func (w *world) packetReadback(when string) {
 		cmp("commitment", gotC, wantC)
 		cmp("receipt", gotR, wantR)
 		cmp("ack", gotA, wantR)
+		w.readbackByPath(c, when)
 		w.rec.ProbeN("readback.packet_entries", len(gotC)+len(gotR)+len(gotA))
+	}
+}
+
+// readbackByPath: the by-path reads (keeper iteration by path, gRPC list queries) of every pair of names
+// of the world return exactly the entries of that path that the whole-store iteration returns.
+func (w *world) readbackByPath(c *xchain, when string) {
+	names := []string{w.tssName()}
+	for _, o := range w.chains {
+		names = append(names, o.Cfg.Name)
+	}
+	allC, allA := c.PacketStatesAll()
+	onPath := func(all map[string]bool, src, dst string) map[string]bool {
+		out := map[string]bool{}
+		for k := range all {
+			if strings.HasPrefix(k, src+"/"+dst+"/") && !strings.Contains(k[len(src)+len(dst)+2:], "/") {
+				out[k] = true
+			}
+		}
+		return out
+	}
+	same := func(a, b map[string]bool) (string, bool) {
+		for k := range a {
+			if !b[k] {
+				return k, false
+			}
+		}
+		for k := range b {
+			if !a[k] {
+				return k, false
+			}
+		}
+		return "", true
+	}
+	for _, src := range names {
+		for _, dst := range names {
+			if src == dst || (src != c.Cfg.Name && dst != c.Cfg.Name) {
+				continue
+			}
+			kc, gc, ga, ok, pmsg := c.PacketReadbackByPath(src, dst)
+			if pmsg != "" {
+				w.rec.Violate("C19", "readback", "by_path_panics", "%s: reading path %s->%s on %s panics: %s", when, src, dst, c.Cfg.Name, pmsg)
+				return
+			}
+			wantC, wantA := onPath(allC, src, dst), onPath(allA, src, dst)
+			if k, eq := same(kc, wantC); !eq {
+				w.rec.Violate("C19", "readback", "by_path_commitments_keeper", "%s: on %s the keeper's by-path iteration for %s->%s disagrees with the whole-store iteration about %s", when, c.Cfg.Name, src, dst, k)
+				return
+			}
+			if !ok {
+				w.rec.Probe("readback.by_path_names_refused")
+				continue
+			}
+			if k, eq := same(gc, wantC); !eq {
+				w.rec.Violate("C19", "readback", "by_path_commitments_query", "%s: on %s the PacketCommitments query for %s->%s disagrees with the whole-store iteration about %s", when, c.Cfg.Name, src, dst, k)
+				return
+			}
+			if k, eq := same(ga, wantA); !eq {
+				w.rec.Violate("C19", "readback", "by_path_acks_query", "%s: on %s the PacketAcknowledgements query for %s->%s disagrees with the whole-store iteration about %s", when, c.Cfg.Name, src, dst, k)
+				return
+			}
+			w.rec.ProbeN("readback.by_path_entries", len(kc)+len(ga))
+		}
 	}
 }
 
